@@ -72,8 +72,14 @@ def _value_upto_class(rng, cls):
     return _value_in_class(rng, c)
 
 
-def gen_rowids(rng, maxlen):
+def gen_rowids(rng, maxlen, huge=False):
     n = rng.choice((0, 0, 1, 1, 2, 3, rng.randint(0, maxlen)))
+    if huge:
+        # more row ids than one / two bytes can count
+        n = rng.choice((255, 256, 257, 65535, 65536, 70000))
+        start = rng.choice((0, 1, (1 << 32) - n - 1))
+        step = rng.choice((1, 1, 2, 3)) if start < 10 else 1
+        return list(range(start, start + n * step, step))
     style = rng.random()
     if style < 0.5:
         pool = range(0, 12)
@@ -109,6 +115,16 @@ def gen_case(rng, tier="quick"):
             seen.add(k)
             keys.append(k)
     entries = [[list(k), gen_rowids(rng, 40 if big else 6)] for k in keys]
+    r = rng.random()
+    if r < 0.004 and entries:
+        # one entry with a long row-id array (lengths beyond 255 / 65535)
+        entries[rng.randrange(len(entries))][1] = gen_rowids(rng, 0, huge=True)
+    elif r < 0.006:
+        # many entries (index lengths beyond 255 / 65535), each tiny
+        n_many = rng.choice((256, 300, 65536, 66000))
+        base = _value_in_class(rng, coord_cls)
+        entries = [[[base + i] + [0] * (arity - 1), [i] if i % 3 else []] for i in range(n_many)]
+        entries = [e for e in entries if e[0][0] < (1 << 63)]
     return {
         "kind": "entries",
         "arity": arity,
@@ -380,12 +396,16 @@ def c11_execute(case, stats, log):
     # (c) independent writer -> library loader, every admissible pair of word sizes
     biggest = max([case["common"]] + [c for k, _ in want_entries for c in k])
     maxrow = max([len(v) for _, v in want_entries] + [x for _, v in want_entries for x in v] + [0])
+    big = len(want_entries) > 1000 or sum(len(v) for _, v in want_entries) > 5000
     for index_word in (1, 2, 4, 8):
         if index_word < refcodec.narrowest_word(biggest):
             continue
         for rowid_word in (1, 2, 4, 8):
             if refcodec.narrowest_word(maxrow) > rowid_word:
                 continue
+            if big and not (index_word == rowid_word == 8 or
+                            (index_word == refcodec.narrowest_word(biggest) and rowid_word == refcodec.narrowest_word(maxrow))):
+                continue  # big files: only the narrowest admissible pair and (8, 8)
             blob = refcodec.encode(want_entries, case["common"], index_word, rowid_word)
             with disk.SimDisk(blob) as d2:
                 where = "load(iw=%d,rw=%d)" % (index_word, rowid_word)
@@ -493,6 +513,10 @@ def c12_execute(case, stats, log, only=None):
 def c12_run(base_seed, idx, stats, opts):
     rng = core.rng_for(base_seed, "storage", idx)
     case = pick_case(rng, opts.get("tier", "quick"))
+    if sum(len(v) for _, v in case["entries"]) > 600 or len(case["entries"]) > 200:
+        # exhaustive cut-point enumeration is quadratic in the file size; big files belong to C10/C11
+        stats.count("skipped_big_file")
+        return "skipped"
     return run_case("C12", case, stats)
 
 
